@@ -530,10 +530,13 @@ impl<S: Storage> Builder<S> {
 
         let (tx, rx) = async_broadcast::broadcast(16);
         #[cfg(risinglight_verif)]
-        let (verif_actor, verif_op) = (
-            format!("{}/{id}.{name}", crate::verif::current_actor()),
-            format!("{id}.{name}"),
-        );
+        let (verif_actor, verif_op) = {
+            let short = name.lines().next().unwrap_or("").trim();
+            (
+                format!("{}/{id}.{short}", crate::verif::current_actor()),
+                format!("{id}.{short}"),
+            )
+        };
         let handle = tokio::task::Builder::default()
             .name(&format!("{id}.{name}"))
             .spawn(
